@@ -58,6 +58,11 @@ def run_schedules(task):
             elif sc == "pickled":
                 cp = pickle.loads(pickle.dumps(hh))
                 plan = {"t1": (hh, 0, [0, 1, 2, 3]), "t2": (cp, 0, [4, 5, 6, 7])}
+            elif sc == "two-trees":
+                if "tree_b" not in out:
+                    out["tree_b"] = ceos_alos2.open_alos2(url, backend_options=dict(use_cache=False, records_per_chunk=2))
+                hb = out["tree_b"][f"imagery/{b.images[0]['group']}/data"]
+                plan = {"t1": (hh, 0, [0, 1, 2, 3]), "t2": (hb, 0, [4, 5, 6, 7])}
             elif sc == "copy-memfs":
                 plan = {"t1": (hh, 0, [0, 1, 2, 3]), "t2": (hh2, 0, [4, 5, 6, 7])}
             elif sc == "one-chunk":
@@ -90,6 +95,7 @@ def run_schedules(task):
             lines.append({"e": "end", "deadlock": bool(r["deadlock"])})
             out["traces"].append({"script": script, "lines": lines, "skipped": r["skipped"], "realised": r["realised"]})
     finally:
+        out.pop("tree_b", None)
         tracefs.SHARED.discard(tracefs.norm(url))
         tracefs.remove(url)
     return out
@@ -132,11 +138,11 @@ def body(chk):
     tasks.append(dict(scenario="one-chunk", level="1.5", seed=chk.seed, scripts=all70[:35]))
     tasks.append(dict(scenario="one-chunk", level="1.1", seed=chk.seed + 1, scripts=all70[35:]))
     for sc, cfg in (("diff", "MC_Loads_sim_diff"), ("same", "MC_Loads_sim_same"), ("pickled", "MC_Loads_sim_same"), ("copy-memfs", "MC_Loads_sim_same"),
-                    ("three", "MC_Loads_sim_three")):
+                    ("two-trees", "MC_Loads_sim_diff"), ("three", "MC_Loads_sim_three")):
         scripts, rs = scripts_from_tlc(cfg, 40 if nq else 600, 40, chk.seed + len(tasks))
         chk.tlc_stats(rs)
         # the lock of a same-variable scenario serialises the model's behaviours: add adversarial scripts that TRY to interleave
-        if sc in ("same", "pickled", "copy-memfs"):
+        if sc in ("same", "pickled", "copy-memfs", "two-trees"):
             scripts += [s for s in itertools.islice(interleavings(["t1"] * 6, ["t2"] * 6), 0, 924, 23 if nq else 3)]
         for i in range(0, len(scripts), 20):
             tasks.append(dict(scenario=sc, level=("1.5", "1.1")[len(tasks) % 2], seed=chk.seed + len(tasks), scripts=scripts[i:i + 20]))
